@@ -47,3 +47,42 @@ Theorem C11_created_decodes : forall e o (inflate : list Z -> option (list Z)) r
   exists pic', spec_decode_png inflate out = Some pic' /\ pic_aequiv pic pic' /\ (optimize_alpha o = false -> pic' = pic).
 Proof. exact raw_create_decodes. Qed.
 Print Assumptions C11_created_decodes.
+
+(* ================================================================ attached chunks, and the scaled variant *)
+From OxiVerif Require Import Model.Reductions Proofs.OutputProofs Proofs.ScaledPipeline Proofs.ChunkFlow Proofs.RawFile.
+
+(* "contains the chunks and ICC profile the caller attached subject to the strip policy": the ancillary list written is the attached
+   list filtered by the policy, after the ICC decision (C14_decision_table) and the conditional drops (C07_conditional_drops) *)
+Theorem C11_created_chunks : forall e r o out, raw_create e r o = Ok out ->
+  exists c, out = output {| raw := c_image c; idat_data := c_cdata c;
+                            aux_chunks := postprocess_chunks (fst (preprocess_chunks e (List.filter (fun c => strip_keep (strip o) (c_name c)) (ri_aux r)) o))
+                                                             (hdr (c_image c)) (hdr (ri_png r));
+                            frames := [] |}.
+Proof. exact raw_create_chunks. Qed.
+Print Assumptions C11_created_chunks.
+
+(* and where they are written (no attached chunk is named IDAT): before PLTE, PLTE / tRNS, after PLTE, IDAT, IEND *)
+Theorem C11_written_closed_form : forall p, frames p = [] ->
+  Forall (fun c => cname_eqb (c_name c) name_IDAT = false) (aux_chunks p) ->
+  output_chunks p =
+    (name_IHDR, to_be32 (width (hdr (raw p))) ++ to_be32 (height (hdr (raw p))) ++
+                [depth (hdr (raw p)); png_header_code (ctype (hdr (raw p))); 0; 0; if interlaced (hdr (raw p)) then 1 else 0])
+    :: map as_pair (List.filter (fun c => negb (after_plte c)) (aux_chunks p))
+    ++ key_chunks (hdr (raw p))
+    ++ map as_pair (List.filter (write_special (hdr (raw p))) (aux_chunks p))
+    ++ [(name_IDAT, idat_data p); (name_IEND, [])].
+Proof. exact raw_written_closed_form. Qed.
+Print Assumptions C11_written_closed_form.
+
+(* with 16-bit scaling requested (C15): the created file decodes to the picture of the raw samples with every pixel rounded *)
+Theorem C11_created_scaled : forall e o (inflate : list Z -> option (list Z)) r out pic N M,
+  optimize_alpha o = false -> scale_16 o = true -> bit_depth_reduction o = true -> dl e S16to8 = false ->
+  wf (ri_png r) -> sem (ri_png r) = Some pic -> depth (hdr (ri_png r)) = 16 ->
+  0 <= width (hdr (ri_png r)) < 2 ^ 32 -> 0 <= height (hdr (ri_png r)) < 2 ^ 32 ->
+  Forall (chunk_ok N) (ri_aux r) -> 0 <= N -> N + 5 <= M -> M + 4 < 2 ^ 31 -> (forall d s, lenZ (z_deflate e d s) <= M) ->
+  (forall d s, inflate (z_deflate e d s) = Some s) ->
+  Forall (fun c => cname_eqb (c_name c) name_acTL = false) (ri_aux r) ->
+  raw_create e r o = Ok out ->
+  spec_decode_png inflate out = Some (scaled_picture (ri_png r) pic).
+Proof. exact raw_create_scaled. Qed.
+Print Assumptions C11_created_scaled.
